@@ -228,7 +228,11 @@ func GenCase(r *rand.Rand, seed int64, kind string) Case {
 			cs.Chain = []ActionSpec{split, script}
 			cs.Pattern = []string{"K", "N", "K", "K", "P", "K"}
 			cs.Out.Count = 64
-			cs.PerSource = 6 + r.Intn(10)
+			// whole cycles: every source ends on a parent that arrives after a
+			// pause longer than flush timeout + batcher heartbeat, i.e. alone in
+			// its batch
+			cs.PerSource = 5 * (1 + r.Intn(3))
+			cs.PauseMs = 260
 			cs.PadMax = 0
 		case 3:
 			// script hold released by the next event / by the time-out after a pause
